@@ -135,6 +135,9 @@ def run_script(exe, drv, script, timeout=90, env=None):
             for (first, count, qq) in submitted.get(d, []):
                 if qq == q:
                     must_run.setdefault(d, set()).update(range(first, first + count))
+        elif kind == "xwait":
+            if kv["helper_done"] != "1" or kv["notdone"] != "0":
+                r.kinds.append("xwait-notdone"); r.fail.append("a task of dispatcher %s that waited for dispatcher %s returned with work unfinished: %s" % (w[2], w[3], l))
         elif kind == "pfor":
             d, b, e_, tc = int(w[2]), int(w[3]), int(w[4]), int(w[5])
             for k in ("missed", "twice", "outside", "badtask", "noncontig"):
@@ -301,6 +304,21 @@ def gen_serial_busy(rng, n):
     return "\n".join(lines) + "\n"
 
 
+def gen_xwait(rng, na, nb):
+    """several dispatchers alive at once: a WORKER of dispatcher 0 helps to drain dispatcher 1 (it waits for 1's parallel
+    tasks while 1's own workers are held at a gate): the tasks it runs must see an id of dispatcher 1 (0: it is not one of
+    1's threads), in range, not shared with a running task of 1. Oracle only (`trace 0`)."""
+    k = rng.choice([1, 2, 5, 12])
+    lines = header(rng, inject=rng.choice([0, 100])) + ["trace 0", "disp 0 %d" % na, "disp 1 %d" % nb]
+    for i in range(nb):
+        lines += ["parg 1 7", "started 1 %d" % i]
+    lines += ["par 1 %d %d" % (k, rng.choice([0, 100, 1000])), "xwait 0 1 7", "wait 1 0", "wait 0 0"]
+    if rng.random() < 0.5:
+        lines += ["par 1 3 0", "wait 1 0"]
+    lines += ["destroy 0", "destroy 1"]
+    return "\n".join(lines) + "\n"
+
+
 def gen_pfor_block(threads, sizes, tcs, rng):
     """threads = 0 means: dispatcher without workers (cores 1)."""
     lines = header(rng, inject=rng.choice([0, 50]))
@@ -464,6 +482,9 @@ def run(ctx):
     for n in ([1, 2, 4, 8, 16, 32] if ctx.thorough else [1, 3, 16]):
         for _ in range(8 if ctx.thorough else 2):
             scripts.append(("shutdown n=%d" % n, gen_shutdown(rng, n)))
+    for na, nb in ([(a, b) for a in (1, 2, 3, 8) for b in (1, 2, 5)] if ctx.thorough else [(3, 1), (1, 1), (4, 2)]):
+        for _ in range(3 if ctx.thorough else 2):
+            scripts.append(("xwait na=%d nb=%d" % (na, nb), gen_xwait(rng, na, nb)))
     # parallelFor: exhaustive small scope in the thorough tier, a sample in the quick tier
     if ctx.thorough:
         for threads in (0, 1, 2, 3, 4, 7):
